@@ -144,3 +144,18 @@ def finish(prop: str, tier: str, level: str, results: list[Result], coverage: di
     )
     sys.stdout.flush()
     return code
+
+
+def match_only(only, *texts):
+    """--only: a substring of, or a regular expression over, the obligation's name / tags"""
+    import re
+
+    if not only:
+        return True
+    joined = " ".join(str(t) for t in texts)
+    if only in joined:
+        return True
+    try:
+        return re.search(only, joined) is not None
+    except re.error:
+        return False
